@@ -36,6 +36,10 @@ Proof.
   apply in_app_or in H. destruct H as [H|H]; [exists x; auto|]. destruct (IH H) as (y & Hy & Hr). exists y; auto.
 Qed.
 
+Lemma fm_cons {A B} (f : A -> list B) a l : flat_map f (a :: l) = f a ++ flat_map f l.
+Proof. reflexivity. Qed.
+Lemma ex_cons {A} (f : A -> bool) a l : existsb f (a :: l) = f a || existsb f l.
+Proof. reflexivity. Qed.
 Lemma lrefs_single x : lrefs [x] = refs_of x.
 Proof. unfold lrefs. simpl. apply app_nil_r. Qed.
 Lemma ldefs_single x : ldefs [x] = defs_of x.
@@ -468,13 +472,13 @@ Section Top.
   Lemma prim_refs pr r : In r (refs_of (write_prim o pr)) ->
     exists r0 c rest, p_img pr = Some r0 /\ g_kids r0 = c :: rest /\ r = (p, node_id c).
   Proof.
-    destruct pr as [k res ins img]. unfold write_prim.
+    destruct pr as [k sb res ins img]. unfold write_prim.
     assert (Hin : forall l j, flat_map attr_refs ((fix go (l : list finput) (j : N) : list aval :=
                      match l with [] => [] | i :: r => AIn j i :: go r (j + 1) end) l j) = []).
     { induction l as [|x l IH]; intro j; simpl; auto. }
     destruct (k =? 12).
     - rewrite refs_of_eq. simpl. intro H. exfalso. induction ins as [|x l IH]; simpl in H; auto.
-    - rewrite refs_of_eq. rewrite !flat_map_app, Hin. simpl. rewrite app_nil_r.
+    - rewrite refs_of_eq. rewrite fm_cons, !flat_map_app, Hin. simpl. rewrite app_nil_r.
       destruct img as [r0|]; simpl; [|intros []]. destruct (g_kids r0) as [|c rest] eqn:E; simpl; [intros []|].
       intros [<-|[]]. exists r0, c, rest. auto.
   Qed.
@@ -683,13 +687,13 @@ Section Prefix.
 
   Lemma allp_prim pr : allp (marks_of (write_prim o pr)).
   Proof.
-    destruct pr as [k res ins img]. unfold write_prim.
+    destruct pr as [k sb res ins img]. unfold write_prim.
     assert (Hin : forall l j, flat_map attr_marks ((fix go (l : list finput) (j : N) : list aval :=
                      match l with [] => [] | i :: r => AIn j i :: go r (j + 1) end) l j) = []).
     { induction l as [|x l IH]; intro j; simpl; auto. }
     destruct (k =? 12).
     - rewrite marks_of_eq. simpl flat_map. apply allp_lmarks_map. intros i _. simpl. apply allp_nil.
-    - rewrite marks_of_eq. rewrite !flat_map_app, Hin. simpl. rewrite app_nil_r.
+    - rewrite marks_of_eq. rewrite fm_cons, !flat_map_app, Hin. simpl. rewrite app_nil_r.
       destruct img as [r0|]; simpl; [|apply allp_nil]. destruct (g_kids r0); simpl; [apply allp_nil|].
       intros r [<-|[]]. reflexivity.
   Qed.
@@ -841,14 +845,14 @@ Section Xlink.
 
   Lemma xl_prim pr : uses_xlink (write_prim o pr) = true -> exists r, p_img pr = Some r.
   Proof.
-    destruct pr as [k res ins img]. unfold write_prim.
+    destruct pr as [k sb res ins img]. unfold write_prim.
     assert (Hin : forall l j, existsb attr_xlink ((fix go (l : list finput) (j : N) : list aval :=
                      match l with [] => [] | i :: r => AIn j i :: go r (j + 1) end) l j) = false).
     { induction l as [|x l IH]; intro j; simpl; auto. }
     destruct (k =? 12).
     - rewrite uses_xlink_eq. simpl existsb. intro H. exfalso. simpl in H.
       induction ins as [|x l IH]; simpl in H; [discriminate|auto].
-    - rewrite uses_xlink_eq, !existsb_app, Hin. simpl. rewrite !orb_false_r. destruct img as [r0|]; [eauto|discriminate].
+    - rewrite uses_xlink_eq, ex_cons, !existsb_app, Hin. simpl. rewrite !orb_false_r. destruct img as [r0|]; [eauto|discriminate].
   Qed.
 
   Lemma xl_filters fs : forall written, lx (write_filters o fs written) = true ->
